@@ -161,7 +161,20 @@ PLAN16 = {
  'WGG-m1': ('G', ['C20']), 'WGG-m2': ('G', ['C20']),
  'WGH-m1': ('H', ['C05']), 'WGH-m2': ('H', ['C05']),
 }
+PLAN17 = {
+ 'WHA-m1': ('A', ['C01']), 'WHA-m2': ('A', ['C01']),
+ 'WHB-m1': ('B', ['C02']), 'WHB-m2': ('B', ['C02']),
+ 'WHC-m1': ('C', ['C08']), 'WHC-m2': ('C', ['C08']),
+ 'WHD-m1': ('D', ['C17']), 'WHD-m2': ('D', ['C17']),
+ 'WHE-m1': ('E', ['C06']), 'WHE-m2': ('E', ['C06']),
+ 'WHF-m1': ('F', ['C20']), 'WHF-m2': ('F', ['C20']),
+ 'WHG-m1': ('G', ['C10']), 'WHG-m2': ('G', ['C10']),
+ 'WHH-m1': ('H', ['C07']), 'WHH-m2': ('H', ['C07']),
+}
 SRC = {}
+for k, (d, checks) in PLAN17.items():
+    PLAN[k] = checks
+    SRC[k] = f'/tmp/mut17-{d}/out/{k.split("-")[1]}'
 for k, (d, checks) in PLAN16.items():
     PLAN[k] = checks
     SRC[k] = f'/tmp/mut16-{d}/out/{k.split("-")[1]}'
